@@ -45,7 +45,33 @@ for m in spec:
     try:
         f = refmodels.resolve(repo, m["target"])
         keep = set(m.get("keep", ()))
-        fn, used = normal.normalise(repo, f, keep, comps=False, ifexp=False)
+        for _attempt in range(4):
+            fn, used = normal.normalise(repo, f, keep, comps=False, ifexp=False)
+            blocked = set()
+
+            def splice(stmts):
+                out = []
+                for st in stmts:
+                    for field in ("body", "orelse", "finalbody"):
+                        sub = getattr(st, field, None)
+                        if isinstance(sub, list) and sub and isinstance(sub[0], ast.stmt) and st.__class__.__name__ != "InlineBlock":
+                            setattr(st, field, splice(sub))
+                    if isinstance(st, ast.Try):
+                        for h in st.handlers:
+                            h.body = splice(h.body)
+                    if st.__class__.__name__ == "InlineBlock":
+                        if any(x.__class__.__name__ == "LeaveBlock" for x in ast.walk(st)):
+                            blocked.add(st._sa_helper)
+                        out.extend(splice(list(st.body)))
+                    else:
+                        out.append(st)
+                return out
+
+            fn.body = splice(fn.body)
+            if not blocked:
+                break
+            keep |= blocked  # a helper with early exits cannot be written in place: the model calls it, the check keeps it too
+        m["keep"] = sorted(keep)
         src_fn = Strip().visit(ast.parse(ast.unparse(fn)).body[0])
         ast.fix_missing_locations(src_fn)
         text = ast.unparse(src_fn) + "\n"
